@@ -20,6 +20,11 @@ ASSUMPTIONS = []
 def mark_case(rng):
     cfg = treegen.Cfg(n_min=1, n_max=10, edges=["HD", "NK", "HD", "NK", "--", "SB", "MO"], p_punct=0.1)
     t = treegen.gen_tree(rng, cfg)
+    for x in trees.unordered_terminals(t):
+        # Penn Treebank quote tags: a tag may itself end in the character that marks heads
+        if rng.random() < 0.12:
+            x.data['label'] = rng.choice(["''", "``", "POS'"])
+            x.data['word'] = rng.choice(["''", "``", "'"])
     tag_uids(t)
     call = rng.choice([("negra_mark_heads", {}), ("negra_mark_heads", {}),
                        ("mark_heads_by_rules", {"mark_heads_preset": "negra"}),
@@ -39,6 +44,14 @@ def one(t, call, group):
         l = Line("pred", "P.C15", [cs, a, a], note="returned " + res)
         l.expect = "no-error-expected"
         lines.append(l)
+    if out is not None:
+        # the marks as a writer shows them (output option mark_heads_marking): one marked child per constituent
+        opts = {"mark_heads_marking": True}
+        for n in list(trees.preorder(out))[:8]:
+            with quiet():
+                lab = trees.get_label(n, **opts)
+            lines.append(Line("corr", "get_label", [proto.enc_opts(opts), proto.enc_tree(n)], proto.enc_s(lab)))
+            lines.append(Line("pred", "P.C20.decor", [proto.enc_opts(opts), proto.enc_tree(n), proto.enc_s(lab)]))
     big = any(len(n.children) > 1 for n in trees.preorder(t))
     return Case(group, {"tree": proto.pretty_tree(t), "call": cs, "result": res[:60]}, lines, nontrivial=big)
 
